@@ -207,3 +207,82 @@ Example delimit_fstring_field :
   delimit_pos 1 7 1 10 RSelf (1, 7, 1, 10) = (1, 7, 1, 12) /\ delimit_pos 1 7 1 10 ROther (1, 10, 1, 12) = (1, 12, 1, 14)
   /\ delimit_pos 1 7 1 10 RInner (1, 9, 1, 10) = (1, 10, 1, 11) /\ delimit_pos 1 7 1 10 ROther (1, 4, 1, 14) = (1, 4, 1, 16).
 Proof. vm_compute. repeat split. Qed.
+
+(* ---- _unparenthesize_grouping undoes _parenthesize_grouping on every node ------------------------------------------------------ *)
+
+(* one deleted character: a non-empty node which starts at or after the point moves back rigidly (at the point: head=True) *)
+Lemma bstep_after tail lno colo l c el ec :
+  pos_lt l c el ec = true -> pos_le lno colo l c = true ->
+  offset_spec lno colo 0 (-1) tail TTrue (l, c, el, ec)
+  = (l, c - (if l =? lno then 1 else 0), el, ec - (if el =? lno then 1 else 0)).
+Proof. destruct tail; spec_crush. Qed.
+
+Lemma bstep_strictly_before tail head lno colo l c el ec :
+  pos_le l c el ec = true -> pos_lt el ec lno colo = true ->
+  offset_spec lno colo 0 (-1) tail head (l, c, el, ec) = (l, c, el, ec).
+Proof. destruct tail, head; spec_crush. Qed.
+
+Lemma bstep_around_tail lno colo l c el ec :
+  pos_lt l c lno colo = true -> pos_le lno colo el ec = true ->
+  offset_spec lno colo 0 (-1) TTrue TTrue (l, c, el, ec) = (l, c, el, ec - (if el =? lno then 1 else 0)).
+Proof. spec_crush. Qed.
+
+Lemma bstep_around_strict tail head lno colo l c el ec :
+  pos_lt l c lno colo = true -> pos_lt lno colo el ec = true ->
+  offset_spec lno colo 0 (-1) tail head (l, c, el, ec) = (l, c, el, ec - (if el =? lno then 1 else 0)).
+Proof. destruct tail, head; spec_crush. Qed.
+
+Lemma ungroup_flags :
+  ungroup_close = {| pc_tail := TTrue; pc_head := TTrue; pc_excl_self := false; pc_offset_excluded := true |}
+  /\ ungroup_open = {| pc_tail := TFalse; pc_head := TTrue; pc_excl_self := false; pc_offset_excluded := true |}.
+Proof. split; reflexivity. Qed.
+
+Ltac case_ifs :=
+  repeat match goal with |- context [if ?c then _ else _] => let E := fresh "E" in destruct c eqn:E; try (exfalso; pos_side) end.
+Lemma put_at_all pc lno colo d r q : pc_excl_self pc = false -> put_at pc lno colo d r q = offset_spec lno colo 0 d (pc_tail pc) (pc_head pc) q.
+Proof. intros E. unfold put_at. rewrite E. destruct r; reflexivity. Qed.
+
+Section RoundTrip.
+  Variables ls cs le ce : Z.
+  Hypothesis HT : pos_lt ls cs le ce = true.
+  Let e := ce + b2z (le =? ls).
+
+  Lemma undo_pos r l c el ec :
+    ungroup_pos ls cs le e r (l, c, el, ec)
+    = offset_spec ls (cs + 1) 0 (-1) TFalse TTrue (offset_spec le (e + 1) 0 (-1) TTrue TTrue (l, c, el, ec)).
+  Proof. unfold ungroup_pos. destruct ungroup_flags as (-> & ->). rewrite !put_at_all by reflexivity. reflexivity. Qed.
+
+  Theorem ungroup_group_self : ungroup_pos ls cs le e RSelf (group_pos ls cs le ce RSelf (ls, cs, le, ce)) = (ls, cs, le, ce).
+  Proof.
+    rewrite group_self by assumption. rewrite undo_pos. subst e. unfold b2z. case_ifs;
+      (rewrite bstep_strictly_before by pos_side); (rewrite bstep_after by pos_side); finish.
+  Qed.
+
+  Theorem ungroup_group_inner l c el ec : pos_lt l c el ec = true -> pos_le ls cs l c = true -> pos_le el ec le ce = true ->
+    ungroup_pos ls cs le e RInner (group_pos ls cs le ce RInner (l, c, el, ec)) = (l, c, el, ec).
+  Proof.
+    intros Hne Hs He. rewrite group_inner_frame by assumption. rewrite undo_pos. subst e. unfold char_col, end_col, b2z. case_ifs;
+      (rewrite bstep_strictly_before by pos_side); (rewrite bstep_after by pos_side); finish.
+  Qed.
+
+  Theorem ungroup_group_after l c el ec : pos_lt l c el ec = true -> pos_le le ce l c = true ->
+    ungroup_pos ls cs le e ROther (group_pos ls cs le ce ROther (l, c, el, ec)) = (l, c, el, ec).
+  Proof.
+    intros Hne Haf. rewrite group_frame by auto. rewrite undo_pos. subst e. unfold char_col, end_col, b2z. case_ifs;
+      (rewrite bstep_after by pos_side); (rewrite bstep_after by (case_ifs; pos_side)); finish.
+  Qed.
+
+  Theorem ungroup_group_before l c el ec : pos_lt l c el ec = true -> pos_le el ec ls cs = true ->
+    ungroup_pos ls cs le e ROther (group_pos ls cs le ce ROther (l, c, el, ec)) = (l, c, el, ec).
+  Proof.
+    intros Hne Hbe. rewrite group_frame by auto. rewrite undo_pos. subst e. unfold char_col, end_col, b2z. case_ifs;
+      (rewrite bstep_strictly_before by pos_side); (rewrite bstep_strictly_before by pos_side); finish.
+  Qed.
+
+  Theorem ungroup_group_ancestors l c el ec : pos_le l c ls cs = true -> pos_le le ce el ec = true ->
+    ungroup_pos ls cs le e ROther (group_pos ls cs le ce ROther (l, c, el, ec)) = (l, c, el, ec).
+  Proof.
+    intros Hs He. rewrite group_ancestors by assumption. rewrite undo_pos. subst e. unfold b2z. case_ifs;
+      (rewrite bstep_around_tail by pos_side); case_ifs; (rewrite bstep_around_strict by pos_side); finish.
+  Qed.
+End RoundTrip.
